@@ -1,5 +1,4 @@
-\* case generator: every well-formed tree with MinEmit..MaxN nodes over the given alphabet
-\* (model checking), or random growth walks (-simulate); one JSON record per tree
+\* case generator (model checking): every well-formed tree with 1..4 nodes, all kinds, all fanouts
 CONSTANTS
   MaxN = 4
   MaxDepth = 4
@@ -7,7 +6,6 @@ CONSTANTS
   BranchKinds = {"Fork", "Hierarchical"}
   Fanouts = {1, 2, 3}
   ComputeFanouts = {1, 2, 3}
-  BranchTags = {1}
   MinEmit = 1
   AppendComputes = TRUE
   CountOwn = FALSE
